@@ -345,3 +345,61 @@ def _kernel_interp(h, ev, env):
     ev.funcs.update(out)
     out[outer.key] = recsum_callable(ev, outer)
     return out
+
+
+def init_ownership(run):
+    """ThermalPropertiesBase.__init__ must not write into the arrays of the Mesh object it is given
+    (a second ThermalProperties built from the same mesh has to see the same frequencies)."""
+    from pvc.pyexec import Record, Opaque
+    mod = pyexec.load(PF)
+    m = mod.method("ThermalPropertiesBase", "__init__")
+    pref = PF + ":ThermalPropertiesBase.__init__"
+    for bi in ("band_indices=None", "band_indices given"):
+        for pr in (False, True):
+            tag = "[%s,pretend_real=%s]" % (bi, pr)
+            ex = PyExec(mod, run.sink, pref + tag, opaque_unknown=True, split=True, globals_={"THzToEv": z3.Real("THzToEv")})
+            st = PState()
+            F_, E_, W_ = Opaque("mesh.frequencies"), Opaque("mesh.eigenvectors"), Opaque("mesh.weights")
+            prim = st.new(Record("Primitive", {"Z": z3.Int("Z")}))
+            dm = st.new(Record("DynamicalMatrix", {"primitive": prim}))
+            mesh = st.new(Record("Mesh", {"frequencies": F_, "eigenvectors": E_, "weights": W_, "dynamical_matrix": dm}))
+            self_ref = st.new(Record("ThermalPropertiesBase", {}))
+            kw = {"cutoff_frequency": z3.Real("cutoff_THz"), "pretend_real": pr,
+                  "band_indices": (None if bi.endswith("None") else Opaque("band_indices")), "is_projection": z3.Bool("is_projection"),
+                  "classical": z3.Bool("classical")}
+            n0 = len(run.sink.obls)
+            outs = ex.call_function(st, m, [mesh], kw, self_ref=self_ref, cls="ThermalPropertiesBase")
+            for (s2, fl, v) in outs:
+                owned = {F_.buf: "mesh.frequencies", E_.buf: "mesh.eigenvectors", W_.buf: "mesh.weights"}
+                hits = [(owned[b], ln) for (b, ln) in s2.writes if b in owned]
+                ob = run.sink.add(pref + tag, "ownership", list(s2.pc), z3.BoolVal(not hits),
+                                  meta={"label": ("arrays of the caller's Mesh are written in place: %s" % hits) if hits else
+                                        "the arrays of the caller's Mesh are not written"})
+                ob.replay = replay_init_ownership
+            run.functions.append({"file": PF, "function": "ThermalPropertiesBase.__init__" + tag, "line": m.lineno, "sha1": mod.sha(m),
+                                  "obligations": len(run.sink.obls) - n0})
+            run.abstracted += sorted(set(ex.abstracted))[:10]
+
+
+def replay_init_ownership(model):
+    from pvc import creplay
+    code = r'''
+import json
+import numpy as np
+from phonopy.phonon.thermal_properties import ThermalPropertiesBase
+class P: Z = 1
+class D: primitive = P()
+class M:
+    def __init__(self):
+        self.frequencies = np.array([[1.0, 2.0, 3.0], [2.0, 3.0, 4.0]]); self.eigenvectors = None
+        self.weights = np.array([1, 2]); self.dynamical_matrix = D()
+m = M(); before = m.frequencies.copy()
+ThermalPropertiesBase(m)
+print(json.dumps({"mesh_frequencies_changed_by": float(np.abs(m.frequencies - before).max())}))
+'''
+    rc, out, err = creplay.py_eval(code)
+    if rc != 0:
+        return {"reproduced": False, "reason": err[-400:]}
+    import json
+    r = json.loads(out.strip().splitlines()[-1])
+    return {"reproduced": r["mesh_frequencies_changed_by"] > 0, "real_code": r, "expected": "mesh.frequencies unchanged by constructing ThermalPropertiesBase"}
